@@ -492,6 +492,8 @@ class Impl:
         # an array whose name is reserved (or clashes) becomes a sympy function with the writer's UNIQUE name
         # (`while` -> while_1): still one distinct uninterpreted function per array.  Map it back to the array
         # through the writer's tag table (tag = Fortran name); two arrays can never share an entry.
+        self.last_raw_type_map = sorted((key, not isinstance(val, self.sympy.Symbol), names[key])
+                                        for key, val in w.type_map.items())
         tags = w._symbol_table.tags_dict                    # pylint: disable=protected-access
         for tag, sym in tags.items():
             if sym.name in names and not isinstance(w.type_map[sym.name], self.sympy.Symbol) and tag in ARRAYS:
@@ -953,7 +955,7 @@ def run(ctx):
     rng = ctx.rng("gen")
     gen = Gen(rng, ctx.thorough)
     concrete = []        # concrete failures that are violations (dicts)
-    st = {"c1": [], "c2": [], "c3": [], "c4": [], "seen_c1": set(), "seen_c2": set(), "seen_c3": set()}
+    st = {"c1": [], "c2": [], "c3": [], "c4": [], "c6": [], "seen_c6": set(), "seen_c1": set(), "seen_c2": set(), "seen_c3": set()}
 
     def limited(fn, *args):
         with time_limit(ctx.pick(30, 60)):      # a time-out only drops the case (never a verdict)
@@ -1006,6 +1008,9 @@ def run(ctx):
         """queue the Coq correspondence cases for this pair"""
         try:
             strs, names = impl.text([a, b])
+            if (a, b) not in st["seen_c6"] and len(st["c6"]) < ctx.pick(250, 2500):
+                st["seen_c6"].add((a, b))
+                st["c6"].append((a, b, impl.last_raw_type_map))
             for e, txt in zip((a, b), strs):
                 if e not in st["seen_c1"] and len(st["c1"]) < ctx.pick(400, 5000):
                     st["seen_c1"].add(e)
@@ -1258,9 +1263,24 @@ def run(ctx):
         bad[tagged[i][0]].append(tagged[i][1])
     bad1, bad2, bad3, bad4 = (sorted(bad[k]) for k in ("K1", "K2", "K3", "K4"))
     ctx.log("coq evaluation of %d cases %.1fs" % (len(tagged), time.time() - t_ph))
+    # C6: the model of _create_type_map (coq/C17/TypeMap.v `build`) against the real writer's type_map
+    c6 = ["(%s, %s)" % (core.coq_list([coq_expr(a), coq_expr(b)]),
+                        core.coq_list("(%s, %s, %s)" % (cstr(k), coq_bool(f), cstr(v)) for k, f, v in raw))
+          for a, b, raw in st["c6"]]
+    bad6 = ctx.coq_eval_failing(header.replace("C17.Model.", "C17.Model C17.TypeMap."),
+                                "list expr * list (string * bool * string)", "chk_typemap", c6, shard=400) if c6 else []
+    ctx.cov["disagreements_checked"] += len(bad6)
+    ctx.log("C6 type map cases=%d (bad %d)" % (len(c6), len(bad6)))
+    if bad6:
+        a, b, raw = st["c6"][bad6[0]]
+        shown = ctx.coq_eval_show(header.replace("C17.Model.", "C17.Model C17.TypeMap."),
+                                  ["build %s" % core.coq_list([coq_expr(a), coq_expr(b)])])
+        broken.append({"broken": "C6: SymPyWriter type_map differs from the model coq/C17/TypeMap.v `build` (a name "
+                                 "not bound, bound to the wrong kind, or renamed differently)",
+                       "a": show(a), "b": show(b), "implementation_type_map": raw, "model": shown, "n": len(bad6)})
     mirror_bad = [i for i, (_, _, real, mine) in enumerate(st["c2"]) if real != mine]
     ctx.cov["disagreements_checked"] += len(bad1) + len(bad2) + len(bad3) + len(bad4)
-    ctx.notes["correspondence_cases"] = {"C1_text": len(c1), "C2_sympy_values": len(c2), "C3_feval": len(c3),
+    ctx.notes["correspondence_cases"] = {"C6_type_map": len(c6), "C1_text": len(c1), "C2_sympy_values": len(c2), "C3_feval": len(c3),
                                          "C4_poly_verdicts": len(c4)}
     ctx.log("coq cases: C1=%d (bad %d) C2=%d (bad %d, mirror bad %d) C3=%d (bad %d) C4=%d (bad %d)"
             % (len(c1), len(bad1), len(c2), len(bad2), len(mirror_bad), len(c3), len(bad3), len(c4), len(bad4)))
